@@ -42,3 +42,37 @@ def doubling(scc, scc_doubled, config=None, **_):
   if f is None:
     return False, head + "\nboth streams show the same sequence of screens"
   return True, head + f"\n[{f[0]}] {f[2]}"
+
+
+def times(shape, kind, model=None, obligation=None, **_):
+  """native replay of a proof-tier counter-model: the shape's lines with the solver's time code labels, read by the real reader;
+  the same clauses (specs/scc_shapes.py) evaluated on the document"""
+  logging.disable(logging.CRITICAL)
+  from fractions import Fraction
+  import ttconv.model as m
+  from ttconv.scc.reader import to_model
+  from specs import scc_shapes as SS, smpte
+  model = model or {}
+  pre = "ndf_" if kind == "ndf" else "df_"
+  sep = ":" if kind == "ndf" else ";"
+  rate = SS.RATES[kind]
+  text, counts, labels = "Scenarist_SCC V1.0\n\n", [], []
+  for i, words in enumerate(SS.SHAPES[shape]["lines"]):
+    h, mi, s, f = (int(model.get(f"L{i}_{pre}{x}", 0) or 0) for x in "hmsf")
+    labels.append(f"{h:02d}:{mi:02d}:{s:02d}{sep}{f:02d}")
+    counts.append(smpte.count(h, mi, s, f, rate))
+    text += f"{labels[-1]}\t{words}\n\n"
+  try:
+    doc = to_model(text)
+  except Exception as e:  # pylint: disable=broad-except
+    return True, f"{text!r}: to_model raised {e!r}"
+  exact = lambda v: isinstance(v, (int, Fraction)) and not isinstance(v, float)    # noqa: E731
+  failed = [(n, note) for n, cond, note in SS.clauses(shape, kind, doc, counts, m, exact) if not bool(cond)]
+  ps = SS.paragraphs(doc, m)
+  desc = "; ".join(f"p{i} {SS.text_of(p, m)!r} frames [{p.get_begin() * rate if p.get_begin() is not None else None}, "
+                   f"{p.get_end() * rate if p.get_end() is not None else None})" for i, p in enumerate(ps))
+  head = f"lines at {labels} (frame counts {counts}): {desc}"
+  want = obligation.split("/")[-1].split("[")[0] if obligation else None
+  if failed:
+    return True, head + " | failed clauses: " + "; ".join(f"{n} {note}".strip() for n, note in failed)
+  return False, head + " | every clause holds" + (f" (the obligation was {want})" if want else "")
